@@ -78,12 +78,15 @@ pub fn t_oct3() {
 pub fn t_prefixed<const N: usize>(prefix: &[u8], git: bool) {
     let buf = with_prefix::<N>(prefix);
     let input = &buf[..];
-    let r = if git { parse_git_metadata_line(input) } else { parse_metadata_line(input) };
+    let r: Result<&[u8], ErrorBuilder> = if git {
+        match parse_git_metadata_line(input) { Ok((rest, v)) => { std::mem::forget(v); Ok(rest) } Err(e) => Err(e) }
+    } else {
+        match parse_metadata_line(input) { Ok((rest, v)) => { std::mem::forget(v); Ok(rest) } Err(e) => Err(e) }
+    };
     match r {
-        Ok((rest, v)) => {
+        Ok(rest) => {
             assert!(is_suffix(input, rest) && rest.len() < input.len());
             kani::cover!(true, "parsed");
-            std::mem::forget(v);
         }
         Err(e) => { kani::cover!(true, "rejected"); std::mem::forget(e); }
     }
@@ -138,6 +141,25 @@ pub fn t_numeric<const N: usize>(d1: usize, d2: usize, d3: usize, d4: usize) {
     digits(&mut buf, &mut p, d4);
     put(&mut buf, &mut p, b" @@\n");
     assert!(p + 4 == N, "verif-infra: layout");
+    let input = &buf[..];
+    match parse_hunk(input) {
+        Ok((rest, h)) => {
+            assert!(is_suffix(input, rest));
+            assert!(h.remove.target_line >= 0 && h.add.target_line >= 0);
+            assert!(h.remove.content.capacity() <= N && h.add.content.capacity() <= N, "allocation out of proportion to the input");
+            kani::cover!(true, "hunk parsed");
+            std::mem::forget(h);
+        }
+        Err(e) => { kani::cover!(true, "hunk rejected"); std::mem::forget(e); }
+    }
+}
+
+/// concrete header text (numbers from the instance matrix: 0, 1, 2^63-1, 2^63, 2^64-1, 2^64, ...), symbolic 4-byte body
+pub fn t_numeric_conc<const N: usize>(hdr: &[u8]) {
+    let mut buf: [u8; N] = kani::any();
+    assert!(hdr.len() + 4 == N, "verif-infra: layout");
+    let mut i = 0;
+    while i < hdr.len() { buf[i] = hdr[i]; i += 1; }
     let input = &buf[..];
     match parse_hunk(input) {
         Ok((rest, h)) => {
